@@ -33,6 +33,9 @@ def finding_matches(f, pid, name, case):
     return f.get("property") == pid and f.get("status", "open") == "open" and f.get("obligation") == name and (f.get("case") in (None, "*", case))
 
 
+BOUNDED_REPLAYS_THIS_RUN = []
+
+
 def write_replay(pid, name, fail, extra=None):
     os.makedirs(os.path.join(REPLAYS, pid), exist_ok=True)
     path = os.path.join(REPLAYS, pid, runner.slug(name + "__" + (fail.get("case") or "")) + ".json")
@@ -40,6 +43,9 @@ def write_replay(pid, name, fail, extra=None):
            "witness": fail.get("witness"), "how_to_replay": f"./check {pid} --replay {os.path.relpath(path, ROOT)}"}
     if extra:
         doc.update(extra)
+    if BOUNDED_REPLAYS_THIS_RUN:
+        # the bounded layer of the same run found concrete failing inputs on the real code of this tree: their replay files carry scripts
+        doc["failing_inputs_found_by_the_bounded_layer_in_this_run"] = list(BOUNDED_REPLAYS_THIS_RUN)
     with open(path, "w") as f:
         json.dump(doc, f, indent=1, default=str)
     return os.path.relpath(path, ROOT)
@@ -166,6 +172,8 @@ def check_property(pid, tier, seed, relock=False, only=None, jobs=None, verbose=
     exit_code = 0
     for k in known:
         lines.append(f"KNOWN-FINDING: property={pid} {k['id']} {k['summary']}")
+    del BOUNDED_REPLAYS_THIS_RUN[:]
+    BOUNDED_REPLAYS_THIS_RUN.extend(os.path.join("replays", pid, runner.slug("bounded__" + str(f.get("key"))) + ".json") for f in b_viol)
     seen_v = set()
     for name, f in violations:
         if (name, f["case"]) in seen_v:
